@@ -41,7 +41,10 @@ where
     E: Engine<U>,
 {
     fn solve(&self, _solver: &Solver<U, E>, state: State<U, E>) -> Stream<U, E> {
-        match PlusFdConstraint::new(self.u.clone(), self.v.clone(), self.w.clone()).run(state) {
+        match PlusFdConstraint::new(self.u.clone(), self.v.clone(), self.w.clone())
+            .run(state)
+            .and_then(State::run_constraints)
+        {
             Ok(state) => Stream::unit(Box::new(state)),
             Err(_) => Stream::empty(),
         }
